@@ -12,7 +12,7 @@ CONSTANT ObsFile
 Obs == ndJsonDeserialize(ObsFile)
 Rng(q) == {q[i] : i \in DOMAIN q}
 
-Constraint(tags) == IF tags = "custom" THEN "!vtag" ELSE "!goverter"
+Constraint(tags) == IF tags \in {"custom", "multi"} THEN "!vtag" ELSE "!goverter"
 OutPaths(layout) == {p[1] : p \in Outputs(layout)}
 PkgOf(layout) == (CHOOSE p \in Outputs(layout) : TRUE)[2]
 PriorState(st) == IF st.out.k = "absent" THEN "absent" ELSE IF st.out.broken THEN "broken" ELSE IF st.out.ver = st.ver THEN "current" ELSE "stale"
@@ -54,9 +54,24 @@ Walk(r, i, st, memo, acc) ==
                 f2 == IF k \in DOMAIN memo /\ memo[k] # MemoVal(o)
                       THEN {<<"C09", IF memo[k].exit # o.exit THEN "exit-differs" ELSE IF o.exit = 0 THEN "bytes-differ" ELSE "diagnostic-differs",
                               (IF st.bad = "none" THEN "no-fault" ELSE st.bad) \o "/" \o r.layout, r.id>>} ELSE {}
-                memo2 == IF k \in DOMAIN memo THEN memo ELSE memo @@ (k :> MemoVal(o))
+                \* C16 / C17: a successful run over existing output must leave exactly the bytes of a clean generation
+                f3 == IF k \in DOMAIN memo /\ o.exit = 0 /\ memo[k].exit = 0 /\ memo[k].hashes # MemoVal(o).hashes /\ PriorState(st) # "absent"
+                      THEN {<<"C17", "output-not-written-completely", PriorState(st), r.id>>}
+                           \cup (IF PriorState(st) \in {"stale", "broken"} THEN {<<"C16", "regeneration-differs-from-clean-generation", PriorState(st), r.id>>} ELSE {})
+                      ELSE {}
+                memo2 == memo
                 \* the model's post state only advances on observed success (keeps later steps meaningful after a violation)
-            IN Walk(r, i + 1, IF o.exit = 0 THEN [st EXCEPT !.out = Out(st.ver, FALSE)] ELSE st, memo2, acc \cup f1 \cup f2)
+            IN Walk(r, i + 1, IF o.exit = 0 THEN [st EXCEPT !.out = Out(st.ver, FALSE)] ELSE st, memo2, acc \cup f1 \cup f2 \cup f3)
+
+\* phase 1: the memo is built from *clean* generations only (no previous output) and from failing runs
+RECURSIVE Collect(_,_,_,_)
+Collect(r, i, st, memo) ==
+  IF i > Len(r.steps) THEN memo
+  ELSE LET step == Step(st, r.steps[i]) o == r.obs[i] IN
+       IF r.steps[i].op # "gen" THEN Collect(r, i + 1, step.st, memo)
+       ELSE LET k == MemoKey(r, st)
+                m2 == IF k \notin DOMAIN memo /\ (o.exit # 0 \/ PriorState(st) = "absent") THEN memo @@ (k :> MemoVal(o)) ELSE memo
+            IN Collect(r, i + 1, IF o.exit = 0 THEN [st EXCEPT !.out = Out(st.ver, FALSE)] ELSE st, m2)
 
 HistFinger(r, memo) ==
   LET w == Walk(r, 1, Init0, memo, {}) IN
@@ -69,13 +84,15 @@ ExpectedPlace(r) ==
   LET dir == OutDir(r.decl, r.ofile, r.cwd)
       pkg == PkgName(r.decl, "src", r.ofile, r.opkg, r.exist, r.cwd)
       main == <<Join(dir) \o OutFile(r.ofile), pkg>> IN
-  CASE r.conv2 \in {"none", "same-file-same-pkg"} -> {main}
+  CASE r.conv2 \in {"none", "same-file-same-pkg", "same-file-other-name"} -> {main}
+    [] r.conv2 = "two-opkg-lines" -> {<<main[1], IF r.opkg = "absent" THEN "stale" ELSE pkg>>}
+    [] r.conv2 = "vars-path-pkg" -> {main, <<Join(r.decl) \o "vsub/v.gen.go", "vsub">>}
     [] r.conv2 = "other-file-same-pkg" -> {main, <<Join(dir) \o "y.go", pkg>>}
     [] r.conv2 = "vars" -> {main, <<Join(r.decl) \o "v.gen.go", "src">>}
     [] OTHER -> {}
 PlaceFinger(r) ==
   LET created == {<<f.path, f.pkg>> : f \in Rng(r.created)} IN
-  IF r.conv2 = "same-file-other-pkg"
+  IF r.conv2 = "same-file-other-pkg" \/ (r.conv2 = "same-file-other-name" /\ r.opkg = "path:nm")
   THEN (IF r.exit # 1 THEN {<<"C15", "different-packages-in-one-file-accepted", "", r.id>>} ELSE {})
        \cup (IF created # {} \/ r.modified # <<>> THEN {<<"C17", "failing-run-changed-files", "place", r.id>>} ELSE {})
   ELSE (IF r.exit # 0 THEN {<<"C15", "placement-run-failed", r.ofile \o "/" \o r.opkg \o "/" \o r.exist, r.id>>}
@@ -97,16 +114,20 @@ ArgvFinger(r) ==
   \cup (IF p.k = "generate" /\ r.exit # 0 /\ changed THEN {<<"C17", "failing-run-changed-files", "argv", r.id>>} ELSE {})
   \cup (IF p.k = "generate" /\ r.exit \notin {0, 1} THEN {<<"C17", "exit-status-not-0-or-1", "", r.id>>} ELSE {})
 
-VARIABLES l, bad, memo
-Init == l = 1 /\ bad = {} /\ memo = <<>>
-Next == /\ l <= Len(Obs)
-        /\ LET r == Obs[l] IN
-           IF r.kind = "hist"
-           THEN LET h == HistFinger(r, memo) IN
-                /\ memo' = h.memo /\ bad' = bad \cup {<<x[1], x[2], x[3]>> : x \in h.fp} /\ EmitFP(h.fp)
-           ELSE LET f == IF r.kind = "place" THEN PlaceFinger(r) ELSE ArgvFinger(r) IN
-                /\ memo' = memo /\ bad' = bad \cup {<<x[1], x[2], x[3]>> : x \in f} /\ EmitFP(f)
-        /\ l' = l + 1
-Done == l = Len(Obs) + 1
+VARIABLES l, bad, memo, phase
+Init == l = 1 /\ bad = {} /\ memo = <<>> /\ phase = 1
+Next == \/ /\ phase = 1 /\ l <= Len(Obs)
+           /\ memo' = (IF Obs[l].kind = "hist" THEN Collect(Obs[l], 1, Init0, memo) ELSE memo)
+           /\ l' = l + 1 /\ UNCHANGED <<bad, phase>>
+        \/ /\ phase = 1 /\ l = Len(Obs) + 1 /\ phase' = 2 /\ l' = 1 /\ UNCHANGED <<bad, memo>>
+        \/ /\ phase = 2 /\ l <= Len(Obs)
+           /\ LET r == Obs[l] IN
+              IF r.kind = "hist"
+              THEN LET h == HistFinger(r, memo) IN
+                   /\ bad' = bad \cup {<<x[1], x[2], x[3]>> : x \in h.fp} /\ EmitFP(h.fp)
+              ELSE LET f == IF r.kind = "place" THEN PlaceFinger(r) ELSE ArgvFinger(r) IN
+                   /\ bad' = bad \cup {<<x[1], x[2], x[3]>> : x \in f} /\ EmitFP(f)
+           /\ l' = l + 1 /\ UNCHANGED <<memo, phase>>
+Done == phase = 2 /\ l = Len(Obs) + 1
 Report == Done => EmitSummary(Len(Obs))
 =============================================================================
